@@ -225,6 +225,65 @@ def _d4(c):
     return False
 
 
+def _run_from(lst, y):
+    """y and the units that follow it in lst with consecutive clocks of the same client (the rest of y's block)"""
+    out = [y]
+    i = lst.index(y)
+    while i + 1 < len(lst) and lst[i + 1] == (lst[i][0], lst[i][1] + 1):
+        i += 1
+        out.append(lst[i])
+    return out
+
+
+def _d4_lost(c):
+    """D4 is persistent: the right half of a cut stays outside the link set, and every unit integrated next to an
+    unlinked unit is unlinked as well. Replays replica r's transactions since the quotation was made and collects the
+    units that have lost (or never got) their links through cuts; a later missed notification about one of THOSE units
+    (its deletion, or an insertion next to it) is the same defect."""
+    if c["pred"] != "C20_NotifiedOnChange" or c.get("kind") not in ("t", "a") or not c.get("hist"):
+        return False
+    looks = c.get("looks") or []
+    prev = looks[-2]["n"] if len(looks) >= 2 else 0
+    hist = c["hist"]
+    qn = c["quote"]["n"]
+    lost = set()
+    for ix, t in enumerate(hist):
+        if ix == 0 or t["n"] <= qn:
+            continue
+        b = hist[ix - 1]
+        text = c["kind"] == "t"
+        bdead, adead = set(b["dead"]), set(t["dead"])
+        newly_dead = [d for d in (adead - bdead) if d in b["lst"]]
+        old = set(b["lst"])
+        al = t["lst"]
+        new = [y for y in al if y not in old]
+        # does this transaction touch a unit that is already outside the link set?
+        if t["n"] > prev:
+            if any(d in lost for d in newly_dead):
+                return True
+            for y in new:
+                i = al.index(y)
+                if (i > 0 and al[i - 1] in lost) or (i + 1 < len(al) and al[i + 1] in lost):
+                    return True
+        # cuts made by this transaction
+        if text or t["k"] != "loc":
+            for d in newly_dead:
+                if _nonleading(b["lst"], d):
+                    lost.update(_run_from(b["lst"], d))
+                i = b["lst"].index(d)
+                if i + 1 < len(b["lst"]) and b["lst"][i + 1] == (d[0], d[1] + 1) and b["lst"][i + 1] not in adead:
+                    lost.update(_run_from(b["lst"], b["lst"][i + 1]))
+        for y in new:
+            i = al.index(y)
+            left = next((u for u in reversed(al[:i]) if u in old), None)
+            right = next((u for u in al[i + 1:] if u in old), None)
+            if left and right and right == (left[0], left[1] + 1):
+                lost.update(_run_from(b["lst"], right))
+            if (left in lost) or (right in lost):
+                lost.add(y)
+    return False
+
+
 def _d5(c):
     q = c.get("quote")
     if c["pred"] != "C20_QuotationDelivery" or not q or q["a"] != "quote" or not (q["su"] or q["eu"]) or not c.get("hist"):
@@ -251,7 +310,7 @@ def _d6(c):
     return False
 
 
-SHAPES = {"D1": _d1, "D2": _d2, "D3": _d3, "D4": _d4, "D5": _d5, "D6": _d6}
+SHAPES = {"D1": _d1, "D2": _d2, "D3": _d3, "D4": lambda c: _d4(c) or _d4_lost(c), "D5": _d5, "D6": _d6}
 
 
 def shapes_of(c):
